@@ -362,12 +362,38 @@ func (p *Parser) resolveDeltas(ofsDeltas, refDeltas []*ObjectHeader) error {
 		}
 	}
 
+	// Thin pack: resolve the REF-deltas whose base the repository has and,
+	// from each of them, the in-pack deltas stacked on top of it (canonical
+	// Git's fix_unresolved_deltas does the same walk after appending the
+	// external base). A REF-delta naming an object that is neither in the
+	// pack yet nor in the repository is left for the second loop: it is
+	// either reached through such a walk or has no base at all.
+	for _, d := range refDeltas {
+		if d.parent != nil {
+			continue
+		}
+		if _, inPack := p.cache.oiByHash[d.Reference]; !inPack {
+			if p.storage == nil || p.storage.HasEncodedObject(d.Reference) != nil {
+				continue
+			}
+		}
+		if err := p.processDelta(d); err != nil {
+			return fmt.Errorf("processing ref-delta at offset %v: %w", d.Offset, err)
+		}
+		if err := visit(d); err != nil {
+			return err
+		}
+	}
+
 	for _, d := range refDeltas {
 		if d.parent != nil {
 			continue
 		}
 		if err := p.processDelta(d); err != nil {
 			return fmt.Errorf("processing ref-delta at offset %v: %w", d.Offset, err)
+		}
+		if err := visit(d); err != nil {
+			return err
 		}
 	}
 
